@@ -132,6 +132,32 @@ def run(run):
                                      model_rules=len(dd) - 1, real_rules=len(hosted["rules"] or [])))
                 if case < 2:
                     run.sample(dict(directory=sorted(files), cql_files=sum(want.values()), bundle_bytes=len(bundle)))
+                # ---- the directory shrinks and is bundled again into the same place (a rule was removed, a text got
+                #      shorter): the new bundle stands for the new directory
+                cqls = [fn for fn in files if fn.endswith(".cql")]
+                if len(cqls) >= 2:
+                    victim = max(cqls, key=lambda fn: len(files[fn].encode("utf-8")))
+                    os.remove(os.path.join(rdir, victim))
+                    files2 = {fn: t for fn, t in files.items() if fn != victim}
+                    other = next(fn for fn in cqls if fn != victim)
+                    files2[other] = files2[other][: len(files2[other]) // 2]
+                    open(os.path.join(rdir, other), "wb").write(files2[other].encode("utf-8"))
+                    p2 = subprocess.run([os.path.join(C.BUILD, "gen-script")], cwd=os.path.join(root, "pathfinder-rules", "gen-script"),
+                                        stdout=subprocess.PIPE, stderr=subprocess.STDOUT, timeout=60)
+                    stats["rebundled_after_shrinking"] += 1
+                    run.count(("rebundle", case))
+                    want2 = collections.Counter(t for fn, t in files2.items() if fn.endswith(".cql"))
+                    try:
+                        bundle2 = open(bundle_path, encoding="utf-8").read()
+                    except Exception:
+                        bundle2 = None
+                    hosted2 = h.call(op="hosted", text="cpf/" + name, bundle=bundle2) if bundle2 is not None else dict(outcome="no-bundle")
+                    got2 = collections.Counter(hosted2.get("rules") or []) if hosted2.get("outcome") == "ok" else None
+                    if p2.returncode != 0 or got2 != want2:
+                        run.violation("C20:rebundle-differs-from-directory",
+                                      "after a rule file was removed and another shortened, bundling again into the same place gives a bundle that %s (directory: %d rule texts)" %
+                                      ("the loader cannot read: %s" % str(hosted2.get("err") or hosted2.get("outcome"))[:120] if got2 is None else "yields %d rule texts" % sum(got2.values()), sum(want2.values())),
+                                      dict(files_before=files, files_after=files2, first_bundle_bytes=len(bundle), second_bundle_bytes=None if bundle2 is None else len(bundle2)))
             finally:
                 shutil.rmtree(root, ignore_errors=True)
     finally:
